@@ -546,6 +546,8 @@ func (s *sessRun) request(rng *mrand.Rand, q int) {
 		}
 		lines := M{}
 		dels := []string{}
+		// the attribute text of the lines that set a cookie and of those that delete one (without the Expires date): one text each
+		attrsSeen := map[bool]string{}
 		for _, line := range rec.Header()["Set-Cookie"][before:] {
 			short, n, deleted := s.lineCheck(line)
 			if deleted {
@@ -553,10 +555,29 @@ func (s *sessRun) request(rng *mrand.Rand, q int) {
 			} else {
 				lines[short] = n
 			}
+			parts := strings.Split(line, "; ")
+			kept := []string{}
+			for _, p := range parts[1:] {
+				if !strings.HasPrefix(p, "Expires=") {
+					kept = append(kept, p)
+				}
+			}
+			at := strings.Join(kept, "; ")
+			if prev, ok := attrsSeen[deleted]; ok && prev != at {
+				at = "MIXED: " + prev + " | " + at
+			}
+			attrsSeen[deleted] = at
 		}
 		j2 := s.jar.clone()
 		j2.apply(rec.Header())
-		s.rec(M{"op": op, "obs": M{"lines": lines, "jar": s.view(j2)}, "deleted": dels})
+		obs := M{"lines": lines, "jar": s.view(j2)}
+		if a, ok := attrsSeen[false]; ok {
+			obs["attrs"] = a
+		}
+		if a, ok := attrsSeen[true]; ok {
+			obs["dattrs"] = a
+		}
+		s.rec(M{"op": op, "obs": obs, "deleted": dels})
 	}
 	s.jar.apply(rec.Header())
 }
